@@ -102,6 +102,16 @@ def panic_signatures(summary):
     return out
 
 
+def constructed_adts(body):
+    """paths of the struct / enum types of which the body builds a value (MIR aggregates)"""
+    out = set()
+    for blk in body.get('blocks') or []:
+        for st in blk['s']:
+            if st[0] == '=' and st[2][0] == 'agg' and st[2][1][0] == 'adt':
+                out.add(st[2][1][1])
+    return out
+
+
 def check_uncovered(run, prop, loader, configs=('std-debug',)):
     evaluated = {fn for r, fn, _, _ in run.instances if not NOT_SPECIFIC.search(r)}
     inlined = set(examined.INLINED)
@@ -121,6 +131,14 @@ def check_uncovered(run, prop, loader, configs=('std-debug',)):
             r = ref.get(p)
             if r is None:
                 new += 1
+                # a NEW function that callers outside the crate can reach (pub, or a method of a trait impl) and that BUILDS a
+                # value of a type that already existed: whatever the rules establish at that type's known constructors
+                # (unique keys, index invariants, primed buffers) is not established here
+                built = sorted(constructed_adts(b) & set((ref.get('#meta') or {}).get('adts') or {}))
+                if built and (b.get('pub') is True or p.startswith('<')) and b.get('kind') != 'Closure':
+                    run.unproven('coverage.new-constructor', p, cfg, 'a new function reachable from outside the crate builds a value of the existing type %s, and no rule of this '
+                                 'check describes it: the invariants established where that type is constructed today are not established here' % ', '.join(built),
+                                 where=b.get('span'))
                 continue
             n += 1
             # callees that are not inlined (recursion, depth) are vouched for separately: each is examined by a rule of its
